@@ -124,6 +124,33 @@ theorem c19_agent (a : List Entry) (new : Entry) (hnd : (a.map Entry.blob).Nodup
       · subst h'; rw [hself] at he; cases he
     · intro h'; exact Or.inl h'
 
+/-- **Replacement survives failed attempts (round 5).**  The client installs a certificate by an
+attempt with a lifetime and, if that fails, a retry of the same certificate without one; the agent
+may fail any single request (`List`, the k-th `Remove`, `Add`) of any attempt.  For every agent
+content (blobs pairwise distinct), every new certificate entry and every sequence of per-attempt
+faults, of any length: if some attempt succeeds the agent holds exactly the old entries that are not
+certificates with the label plus the new one — so the new certificate is the only one under its
+label however many attempts failed before and wherever they failed; if none succeeds no entry other
+than certificates with that label has been touched and nothing has been added. -/
+theorem c19_agent_retry (a : List Entry) (new : Entry) (fs : List Fault)
+    (hnd : (a.map Entry.blob).Nodup) (hc : new.isCert = true) :
+    ((install a new fs).2 = true →
+      (install a new fs).1 = a.filter (fun e => !isDup new e) ++ [new] ∧
+      (install a new fs).1.filter (isDup new) = [new]) ∧
+    ((install a new fs).2 = false →
+      (install a new fs).1.filter (fun e => !isDup new e) = a.filter (fun e => !isDup new e) ∧
+      ∀ e ∈ (install a new fs).1, e ∈ a) := by
+  have h := install_spec fs new a hnd
+  refine ⟨fun hok => ⟨h.1 hok, ?_⟩, h.2⟩
+  rw [h.1 hok, ← agentUpsert_eq a new hnd]
+  exact (c19_agent a new hnd hc).2.1
+
+/-- the retry scenario is not vacuous: an earlier certificate under the label, first attempt fails
+at `List`, the retry succeeds — one certificate under the label; and a memo "already cleaned" taken
+before the clean-up succeeded (the retry only adds) would leave two -/
+example : install [⟨"l".toList, 1, true⟩, ⟨"o".toList, 2, false⟩] ⟨"l".toList, 3, true⟩ [.list, .none] =
+    ([⟨"o".toList, 2, false⟩, ⟨"l".toList, 3, true⟩], true) := by decide
+
 /-- **Agent upsert source** (regenerated): the two functions `agentUpsert` transcribes read, after
 whitespace normalisation, exactly as they did when the model was written (list the agent; for every
 entry that parses as a certificate and carries the comment: `Remove`; then `Add`).  Any edit —
